@@ -72,6 +72,7 @@ func (w *vWorld) afterFailure(tag string, allocs []Allocation, before worldSnap)
 	}
 	verifAssert("C10/"+tag+"/existing-allocations-untouched", okLive)
 	w.oracleC04("C10/" + tag + "/after-failure")
+	w.oracleC04("C04/after-an-injected-failure") // the same equalities, reported under C04 when this harness runs for C04
 	w.oracleC02("C10/" + tag + "/invariants-after-failure")
 	verifAssert("C10/"+tag+"/no-invalid-driver-call", len(w.dev.vu) == 0)
 	// the caller's objects are reusable: a fault-free allocation into them must be accepted
